@@ -67,9 +67,10 @@ def known_findings():
             line = line.strip()
             if not line or line.startswith('#'):
                 continue
-            m = re.match(r'known:\s+property=(\S+)\s+obligation=(\S+)\s*(?:::\s*(.*))?$', line)
+            m = re.match(r'known:\s+property=(\S+)\s+obligation=(\S+)\s*(?:match="([^"]*)"\s*)?(?:::\s*(.*))?$', line)
             if m:
-                out['known'].append({'property': m.group(1), 'obligation': m.group(2), 'what': m.group(3) or ''})
+                out['known'].append({'property': m.group(1), 'obligation': m.group(2), 'match': m.group(3) or '',
+                                     'what': m.group(4) or ''})
                 continue
             m = re.match(r'fixed:\s+property=(\S+)\s+(\S+)\s+(.*)$', line)
             if m:
